@@ -246,7 +246,6 @@ Section BpeRoundtrip.
   Hypothesis Hcons : vocab_consistent v.
   Hypothesis Hcomplete : bpe_complete v.
   Hypothesis Hspec : specials_in_vocab v.
-  Hypothesis Hsplit : split_partition split.
 
   Lemma bpe_piece_roundtrip piece :
     is_bytes piece -> no_nul piece = true -> bpe_decode v (bpe_piece v piece) = Some piece.
@@ -295,15 +294,18 @@ Section BpeRoundtrip.
   Definition specials_plain (s : str) : Prop :=
     forall sp, In sp (vspecials v) -> Infix sp s -> is_ascii sp.
 
+  (** the pre-tokeniser only has to be a partition on the text fragments of this input *)
+  Definition split_ok_on (s : str) : Prop := forall t, In (FText t) (fragments v s) -> concat (split t) = t.
+
   Lemma bpe_frag_roundtrip s f :
-    is_bytes s -> no_nul s = true -> specials_plain s ->
+    is_bytes s -> no_nul s = true -> specials_plain s -> split_ok_on s ->
     In f (fragments v s) -> bpe_decode v (bpe_frag v split f) = Some (frag_value f).
   Proof.
-    intros Hb Hn Hg Hin.
+    intros Hb Hn Hg Hso Hin. pose proof (fun t (H : f = FText t) => Hso t (eq_ind _ (fun x => In x (fragments v s)) Hin _ H)) as Hsplit'.
     pose proof (fragments_infix v s f Hin) as Hinf.
     pose proof (fragments_ok v s) as Hok. rewrite Forall_forall in Hok. specialize (Hok f Hin).
     destruct f as [t|sp id]; cbn [bpe_frag frag_value] in *.
-    - rewrite <- (Hsplit t) at 2. apply bpe_pieces_roundtrip; rewrite Hsplit.
+    - rewrite <- (Hsplit' t eq_refl) at 2. apply bpe_pieces_roundtrip; rewrite (Hsplit' t eq_refl).
       + eapply Infix_is_bytes; eassumption.
       + eapply Infix_no_nul; eassumption.
     - destruct Hok as [Hsp ->]. cbn [bpe_decode]. rewrite Hcons by (apply Hspec, Hsp).
@@ -311,24 +313,29 @@ Section BpeRoundtrip.
   Qed.
 
   Lemma bpe_frags_roundtrip s fs :
-    is_bytes s -> no_nul s = true -> specials_plain s ->
+    is_bytes s -> no_nul s = true -> specials_plain s -> split_ok_on s ->
     incl fs (fragments v s) -> bpe_decode v (flat_map (bpe_frag v split) fs) = Some (frags_text fs).
   Proof.
-    intros Hb Hn Hg. induction fs as [|f fs IH]; intros Hi; [reflexivity|].
+    intros Hb Hn Hg Hso. induction fs as [|f fs IH]; intros Hi; [reflexivity|].
     cbn [flat_map]. unfold frags_text. cbn [map concat].
     apply bpe_decode_app.
     - apply (bpe_frag_roundtrip s); try assumption. apply Hi. left. reflexivity.
     - apply IH. intros x Hx. apply Hi. right. exact Hx.
   Qed.
 
-  Theorem bpe_roundtrip s :
-    is_bytes s -> no_nul s = true -> specials_plain s ->
+  Theorem bpe_roundtrip_on s :
+    is_bytes s -> no_nul s = true -> specials_plain s -> split_ok_on s ->
     bpe_decode v (bpe_encode v split s false) = Some s.
   Proof.
-    intros Hb Hn Hg. unfold bpe_encode, add_special. cbn [andb]. unfold bpe_encode_ids.
+    intros Hb Hn Hg Hso. unfold bpe_encode, add_special. cbn [andb]. unfold bpe_encode_ids.
     rewrite (bpe_frags_roundtrip s) by (try assumption; apply incl_refl).
     rewrite fragments_text. reflexivity.
   Qed.
+
+  Theorem bpe_roundtrip s :
+    split_partition split -> is_bytes s -> no_nul s = true -> specials_plain s ->
+    bpe_decode v (bpe_encode v split s false) = Some s.
+  Proof. intros Hsplit Hb Hn Hg. apply bpe_roundtrip_on; try assumption. intros t _. apply Hsplit. Qed.
 End BpeRoundtrip.
 
 (** * ids in the vocabulary *)
